@@ -167,6 +167,9 @@ def run(ctx):
     # glue probes (monitor only): the code around the modelled handlers - unreachable peers keep being contacted, a completed exchange reaches the failure detector
     gv, gcov = glue_probes(ID, binary, wd, rng, quick, which=('round', 'heartbeat'))
     violations += gv
+    # the real accrual detector wired into the real state behind a virtual clock (silence, recovery, expiry)
+    fv, fcov = fd_probe(ID, binary, wd, rng, quick)
+    violations += fv
     mon = [(c, f) for c, o in zip(cases, outs) for f in [monitor(c, o)] if f]
     okc = [(c, o) for c, o in zip(cases, outs) if not o.get("panic")]
     dis = correspondence(ID, wd, [c for c, _ in okc], [o for _, o in okc])
@@ -210,6 +213,7 @@ def run(ctx):
                               "event_kinds": kinds, "disagreements": len(dis), "seed": ctx["seed"]},
            "monitor": {"histories": len(cases), "failures": len(mon), "failures_known": nknown}}
     cov["glue_probes"] = gcov
+    cov["real_detector"] = fcov
     return {"coverage": cov, "violations": violations, "known": known}
 
 
